@@ -61,6 +61,19 @@ def c16(pid, tier, t0):
 def c17(pid, tier, t0):
     exe = nv.build_harness("c17_ren", "plain", ["c17_ren.c", "peek_uc.c"], replace=["uc"])
     res = nv.run_shards(exe, ["tier=" + tier, "deadline=%d" % dl(tier)], nv.NCPU, dl(tier) + 60)
+    # (c) editor level: h / l in vi mode go to the character displayed immediately to the left / right, also with
+    # reordering switched off in mirrored lines - the C19 exploration of that configuration, of which only the
+    # visual-motion oracle counts here
+    exe2 = nv.build_harness("c19_screen", "plain", ["c19_screen.c"], wraps=WRAPS)
+    for cfg in ("12,8,40,0,0,1,2", "12,8,40,0,1,1,1", "40,8,40,1,0,0,0"):
+        r2 = nv.run_shards(exe2, ["tier=" + tier, "deadline=%d" % dl(tier), "cfg=" + cfg, "depth=2"], nv.NCPU, dl(tier) + 120, tag="v")
+        res.viols += [("c17-visual-motion", v[1]) for v in r2.viols if "moved the terminal cursor" in v[1]]
+        res.errs += r2.errs
+        res.shards += r2.shards
+        res.done += r2.done
+        res.stats["editor_states_validated"] = res.stats.get("editor_states_validated", 0) + r2.stats.get("states", 0)
+        if r2.stats.get("deadline_hit"):
+            res.stats["deadline_hit"] = 1
     return nv.finish(pid, tier, t0, res, {
         "rule": "every code point U+0001..U+10FFFF (width class and bell class: bisection vs linear scan of the same tables, tables checked sorted/disjoint); "
                 "every line of <= maxlen characters over {a, tab, U+4E00 wide, U+0300 zero-width, U+064E placeholder, U+0628 Arabic, U+200C ZWNJ} + newline "
@@ -388,6 +401,7 @@ REPLAY = {
     "C09": ("c09_repeat", "plain", ["c09_repeat.c"], []),
     "C13": ("c13_vikeys", "plain", ["c13_vikeys.c"], []),
     "C16": ("c08_operators", "plain", ["c08_operators.c"], []),
+    "C17": ("c19_screen", "plain", ["c19_screen.c"], []),	# its editor-level part (h / l as visual motions)
     "C19": ("c19_screen", "plain", ["c19_screen.c"], []),
     "C20": ("c20_buffers", "plain", ["c20_buffers.c", "peek_ex.c", "peek_lbuf.c"], ["ex", "lbuf"]),
 }
